@@ -48,6 +48,10 @@ def general_runs(ctx, count, batches=False, refine=False, full_snap=True, dims=N
         if batches and rng.random() < 0.5:
             for k in compositions(rng, rng.randint(1, min(limit, 25))):
                 run.dgi(k)
+                if rng.random() < 0.12:
+                    # one more listener (the base class: all callbacks no-ops) is attached in the middle of the search
+                    from iOpt.method.listener import Listener
+                    run.solver.AddListener(Listener())
                 if localref and rng.random() < 0.15:
                     run.localref(rng.choice([5, 20, 60]))     # refinement in the middle of the global search
         run.solve()
